@@ -33,6 +33,7 @@ type step struct {
 	Lease   int // ack/nack: index into the leases obtained so far (in order of appearance)
 	Leases  []int
 	Delay   string
+	Thread  int // concurrent scenarios: the client this step belongs to (steps of one client are contiguous)
 }
 
 type pubItem struct {
@@ -206,4 +207,45 @@ type dequeueBody struct {
 		Route      string `json:"route"`
 		PayloadB64 string `json:"payload_b64"`
 	} `json:"items"`
+}
+
+// Concurrent scenarios: each inner slice is the script of one client; the clients run concurrently under the
+// controlled scheduler. At most one client dequeues (lease indices are that client's own).
+var concScripts = map[string]func() [][]step{
+	// two producers racing (pull ingress / fan-out ingress / publish)
+	"conc-producers": func() [][]step {
+		return [][]step{
+			{{Kind: "ingress", Route: "/p", Payload: "c1", Targets: []string{"pull"}}, {Kind: "ingress", Route: "/f", Payload: "c2", Targets: fanTargets}},
+			{{Kind: "publish", Items: []pubItem{{"k1", "/p", "pk1"}, {"k2", "/p", "pk2"}}}, {Kind: "ingress", Route: "/p", Payload: "c3", Targets: []string{"pull"}}},
+		}
+	},
+	// a producer racing with a consumer that settles what it gets
+	"conc-consumer": func() [][]step {
+		return [][]step{
+			{{Kind: "ingress", Route: "/p", Payload: "d1", Targets: []string{"pull"}}, {Kind: "ingress", Route: "/p", Payload: "d2", Targets: []string{"pull"}}},
+			{{Kind: "dequeue", Batch: 2}, {Kind: "ack", Lease: -1}, {Kind: "dequeue", Batch: 2}, {Kind: "nack", Lease: -1, Delay: "0s"}},
+		}
+	},
+	// three clients: fan-out producer, publisher, consumer with a dead-letter
+	"conc-three": func() [][]step {
+		return [][]step{
+			{{Kind: "ingress", Route: "/f", Payload: "e1", Targets: fanTargets}, {Kind: "ingress", Route: "/p", Payload: "e2", Targets: []string{"pull"}}},
+			{{Kind: "publish", Items: []pubItem{{"m1", "/p", "pm1"}, {"m2", "/p", "pm2"}}}},
+			{{Kind: "dequeue", Batch: 1}, {Kind: "nackdead", Lease: -1}, {Kind: "dequeue", Batch: 2}, {Kind: "ack", Lease: -1}},
+		}
+	},
+}
+
+// concSteps flattens a concurrent script (Thread set, steps of one client contiguous) and returns the offsets.
+func concSteps(name string) ([]step, []int) {
+	var out []step
+	var off []int
+	for t, th := range concScripts[name]() {
+		off = append(off, len(out))
+		for _, st := range th {
+			st.Thread = t
+			out = append(out, st)
+		}
+	}
+	return out, off
 }
